@@ -13,13 +13,16 @@ RULE = ('identifier-tagged objects (value = ravelled position, tagged derivative
         'from every entry kind in every position; distinct = distinct request line; non-trivial = the index contains an '
         'array entry, a masked/out-of-range entry or the object has masked elements')
 MANIFEST = {
-    'text': 'Kernel-checked theorems (PMV/Props/C09.lean, 23) about a code-shaped Lean model of polymath/extensions/indexer.py '
+    'text': 'Kernel-checked theorems (PMV/Props/C09.lean, 31) about a code-shaped Lean model of polymath/extensions/indexer.py '
             '(_prep_index statement by statement, _prep_scalar_index, __getitem__ with every mask-representation branch, '
             'relocation of array axes, derivative recursion, iteration) on top of a denotational model of NumPy basic + '
             'advanced indexing, relative to a per-element specification sel. End-to-end refinements getitem = sel: shapeless '
             'objects (complete); tuples of None/Ellipsis/slices/integers/single booleans of any length on any rank '
             '(getitem_basic, complete incl. error agreement); one array entry with masked and out-of-range elements in any '
-            'position after None/Ellipsis/slices/booleans (getitem_one_array_partial: the class of the axis-misplacement defect). '
+            'position after None/Ellipsis/slices/booleans (getitem_one_array_partial: the class of the axis-misplacement defect); '
+            'several array entries of one array shape with accumulated post-masks, adjacent (getitem_arrays_adjacent_partial) or '
+            'separated by slices with NumPy front placement and polymath relocation (getitem_arrays_separated_partial), and '
+            'Pair/Vector index objects via their expansion (getitem_vector_index, getitem_basic_expanded). '
             'Stage theorems: per-entry replacement/flags, mask merge in all 3x3 representation branches (mask_iff), relocation, '
             'derivatives, iteration, invalid entries. The model is tied to /repo on every run: the same index tuples go to the '
             'real code and to the compiled model (outputs diffed), the NumPy model is compared with real NumPy (kernel suite), '
@@ -27,8 +30,8 @@ MANIFEST = {
             'code directly.',
     'design': 'DESIGN.md §3 C09, DESIGN.d/C09.md',
     'technique': 'Lean 4 proof (induction over index lists linking absolute axis bookkeeping to progressive consumption; case analysis over representations) + model/code correspondence + NumPy kernel suite + spec suite',
-    'note': 'NOT proved end to end: several array entries (getitem_arrays), Pair/Vector index objects, integers ahead of a single '
-            'array entry, shapes with empty axes in the one-array theorem (T1 + oracle only); see DESIGN.d/C09.md. Open findings '
+    'note': 'NOT proved end to end: arrays of different broadcastable shapes, integers ahead of '
+            'the first array entry, shapes with empty axes in the array theorems (T1 + oracle only); see DESIGN.d/C09.md. Open findings '
             'KF-C09-1 (integer index on a zero-length axis raises IndexError) and KF-C09-2 (already masked shapeless object: '
             'derivatives not masked by a masked Boolean index). Five indexing defects of the pinned tree repaired.',
 }
@@ -420,11 +423,12 @@ def mk(case):
 
 def sel_sibling(case):
     """the same index for the spec suite (Lean `sel` vs the Python reference), where `sel` is defined: a leading
-    shape, no Pair/Vector entry, not the integer-gap class of DESIGN 8.2 (where the reference keeps NumPy's order)"""
+    shape, not the integer-gap class of DESIGN 8.2 (where the reference keeps NumPy's order)"""
     obj, ents = case['obj'], case['index']
-    if not obj['shape'] or any(e['k'] in ('vec', 'float', 'bad') for e in ents):
+    if not obj['shape'] or any(e['k'] in ('float', 'bad') for e in ents):
         return None
-    names = [e['k'] for e in ents]
+    # a shapeless Pair/Vector expands into integers, one with a shape into adjacent arrays
+    names = [('int' if e['k'] == 'vec' and not e['shape'] else 'iarr' if e['k'] == 'vec' else e['k']) for e in ents]
     arr = [i for i, k in enumerate(names) if k in ('iarr', 'barr')]
     adv = [i for i, k in enumerate(names) if k in ('iarr', 'barr', 'int')]
     if arr:
